@@ -472,6 +472,16 @@ func c06NewSubject(subject string) interface{} {
 		return spec.ComposedSchema(*spec.BoolProperty(), *spec.RefProperty("#/definitions/a"), *spec.Float64Property())
 	case "schema-strfmt":
 		return spec.StrFmtProperty("uuid")
+	case "schema-scalars":
+		return spec.ComposedSchema(*spec.CharProperty(), *spec.DateProperty(), *spec.Float32Property(), *spec.Int8Property(), *spec.Int16Property(), *spec.Int32Property())
+	case "security-basic":
+		return spec.BasicAuth()
+	case "security-oauth2-application":
+		return spec.OAuth2Application("http://t")
+	case "security-oauth2-implicit":
+		return spec.OAuth2Implicit("http://a")
+	case "security-oauth2-password":
+		return spec.OAuth2Password("http://t")
 	}
 	panic(subject)
 }
@@ -728,7 +738,7 @@ func c06Run(c *Ctx) {
 	c.Bound("builder_history_length", fmt.Sprint(depth))
 	for _, subject := range []string{"schema", "response", "operation", "parameter", "header", "items",
 		"tag", "xml", "security-oauth2", "security-apikey", "param-query", "param-header", "param-path", "param-form", "param-file", "param-body", "param-array", "param-ref",
-		"response-ref", "header-new", "schema-string", "schema-array", "schema-map", "schema-ref", "schema-composed", "schema-strfmt"} {
+		"response-ref", "header-new", "schema-string", "schema-array", "schema-map", "schema-ref", "schema-composed", "schema-strfmt", "schema-scalars", "security-basic", "security-oauth2-application", "security-oauth2-implicit", "security-oauth2-password"} {
 		ops := c06Ops(subject)
 		if len(c06Skipped[subject]) > 0 {
 			c.Note("builder methods of " + subject + " not driven (argument type without a value pool): " + strings.Join(c06Skipped[subject], ","))
